@@ -620,3 +620,56 @@ func (p *Prog) Implementations(m *types.Func) []*ssa.Function {
 	p.implCache[m] = out
 	return out
 }
+
+// GlobalConstants returns, for the package-level variables of a repo package that are initialised with a constant
+// in the package initialiser and never assigned anywhere else in the module, their constant value ("effectively
+// constant" variables such as `var DetectMode1 = 1`).
+func (p *Prog) GlobalConstants(pkgPath string) map[*ssa.Global]*ssa.Const {
+	sp := p.SSAPkgs[pkgPath]
+	out := map[*ssa.Global]*ssa.Const{}
+	if sp == nil {
+		return out
+	}
+	stores := map[*ssa.Global]int{}
+	for _, f := range p.RepoFuncs() {
+		isInit := f.Pkg == sp && f.Name() == "init" && f.Parent() == nil
+		ForEachInstr(f, func(in ssa.Instruction) {
+			st, ok := in.(*ssa.Store)
+			if !ok {
+				return
+			}
+			g, ok := st.Addr.(*ssa.Global)
+			if !ok || g.Pkg != sp {
+				return
+			}
+			stores[g]++
+			if c, ok := st.Val.(*ssa.Const); ok && isInit {
+				out[g] = c
+			}
+		})
+	}
+	if init := sp.Func("init"); init != nil {
+		ForEachInstr(init, func(in ssa.Instruction) {
+			st, ok := in.(*ssa.Store)
+			if !ok {
+				return
+			}
+			g, ok := st.Addr.(*ssa.Global)
+			if !ok || g.Pkg != sp {
+				return
+			}
+			if _, seen := stores[g]; !seen {
+				stores[g]++
+				if c, ok := st.Val.(*ssa.Const); ok {
+					out[g] = c
+				}
+			}
+		})
+	}
+	for g := range out {
+		if stores[g] != 1 {
+			delete(out, g)
+		}
+	}
+	return out
+}
